@@ -14,7 +14,12 @@
      that never relents (genK: the client must give up; TLC's Terminates is the same statement about the model),
      every sequence of reconnect answers over the whole class of transient statuses {429, 500, 502, 503, 504}, the
      transport error and the non-transient statuses {404, 403, 501} (genS), and the single-cut table of the
-     13-event reference stream (gen1L) that is joined to the byte-level runs.
+     13-event reference stream (gen1L) that is joined to the byte-level runs; and the two budgets CROSSED (genB, genBA, genB5):
+     after a first cut that left the stream resumable the environment chooses per attempt refused / transient status / 200 with
+     no event / 200 with a `retry:` event only (bare, named as the SDK's server writes it, with the id resumed from) / 200 with
+     the rest - every sequence for MaxRetries 1 and 2 (genBA), the grid k = 0..MaxRetries+1 fruitless resumptions x j =
+     1..MaxRetries failed attempts at every position for MaxRetries 2, 3 (genB) and the default 5, option left unset (genB5);
+     the server is stuck once the script is used up, so a client that does not give up is seen polling.
   3. harness/mcp/c09_streamcli_test.go runs them on a real mcp.Client over a real StreamableClientTransport
      with a scripted RoundTripper inside testing/synctest, plus EVERY byte offset of the reference bodies x
      {read error, clean EOF} at session level and at function level (scanEvents alone).
@@ -28,6 +33,9 @@ PID = "C09"
 TLC_WORKERS = 4
 WITNESSES = ("NeverResumed", "NeverExhausted", "NeverGaveUpAttempts", "NeverSynthetic", "NeverStandaloneDone",
              "NeverGaveUpOnStuck", "NeverRetriedStatus")
+# witnesses of the budget-crossing family: TLC tags every exported behaviour of genB with the ones it is (BudgetWit)
+BUDGET_WITNESSES = ("CrossedBudgets", "GaveUpOnRetryOnly")
+ALL_RETRY = '{"none", "bare", "named", "idd"}'
 ALL_CLASSES = '{"bnd", "field", "name", "id", "idfull", "data", "datafull"}'
 # reconnect answers are values: "ok", "terr" (transport error) or an HTTP status.  The status class is enumerated
 # in full by genS / mc_status; the multi-cut configurations carry one transient and one non-transient member each
@@ -48,6 +56,7 @@ CONSTANTS
   ClassSet = %(classes)s
   AnswerSet = %(answers)s
   TailSet = %(tails)s
+  RetrySet = %(retries)s
   FixScanner = %(fixscanner)s
   FixCursor = %(fixcursor)s
   Fix5xx = %(fix5xx)s
@@ -58,6 +67,8 @@ CHECK_DEADLOCK FALSE
 PROP_INVS = ("INVARIANTS TypeOK InvExactlyOnce InvNoTruncated InvResumeCursor InvRealResponse InvCleanFailure InvBoundedRetries\n"
              "PROPERTIES Terminates")
 ASIS_INVS = "INVARIANTS TypeOK InvCleanFailure InvNoTruncated\nPROPERTIES Terminates"
+# under a state CONSTRAINT (behaviours are cut off): the safety part only
+PROP_SAFETY = "INVARIANTS TypeOK InvExactlyOnce InvNoTruncated InvResumeCursor InvRealResponse InvCleanFailure InvBoundedRetries"
 
 
 # ---- THE CODE AS IT STANDS: which of the three repairs of StreamCli.tla /repo has received.
@@ -84,13 +95,21 @@ def tla_bool(b):
 def cfg_text(fix=None, **kw):
     """fix=None: the code as it stands (REPAIRED); fix="TRUE": the design the property asks for (all repairs)."""
     d = dict(kinds='{"post", "sa"}', shapes="AllShapes", schemes='{"dec", "nested"}', ms="{2, 3}", mrs="{0, 1, 2}",
-             cuts=2, classes=ALL_CLASSES, answers=ALL_ANSWERS, tails='{"good"}', tail="INVARIANTS Export")
+             cuts=2, classes=ALL_CLASSES, answers=ALL_ANSWERS, tails='{"good"}', retries='{"none"}', tail="INVARIANTS Export")
     if fix is None:
         d.update(fixscanner=tla_bool(REPAIRED["scanner"]), fixcursor=tla_bool(REPAIRED["cursor"]), fix5xx=tla_bool(REPAIRED["5xx"]))
     else:
         d.update(fixscanner=fix, fixcursor=fix, fix5xx=fix)
     d.update(kw)
     return CFG_TMPL % d
+
+
+def budget_cfg(constraint, mrs, kinds='{"post", "sa"}', shapes="FirstOnly", cuts=5, fix=None, tail=None):
+    """the budget-crossing family (Budgets* in StreamCliMC.tla): cuts on event boundaries only, every kind of `retry:` event, a
+    server that is stuck once the script is used up; cuts >= MaxRetries + 2 (the first cut + MaxRetries + 1 fruitless bodies)"""
+    return cfg_text(fix=fix, kinds=kinds, shapes=shapes, schemes='{"dec"}', ms="{2}", mrs=mrs, cuts=cuts, classes='{"bnd"}',
+                    answers='{"terr", "ok", "503"}', tails='{"stuck"}', retries=ALL_RETRY,
+                    tail=tail if tail is not None else "CONSTRAINT %s\nINVARIANTS Export%s" % (constraint, constraint))
 
 
 # reference streams of the byte level (first body: every byte offset x both terminations)
@@ -126,7 +145,7 @@ def cut_key(b):
 
 
 def script_of(exp):
-    cuts = [{"n": b["n"], "cls": b["cls"], "knd": b["knd"], "al": b["al"]} for b in exp["bodies"]]
+    cuts = [{"n": b["n"], "cls": b["cls"], "knd": b["knd"], "al": b["al"], "rt": b["rt"]} for b in exp["bodies"]]
     rc = [r["outs"] for r in exp["recon"]]
     return cuts, rc
 
@@ -135,7 +154,27 @@ def ncuts(p):
     return sum(1 for b in p["exp"]["bodies"] if b["knd"] != "none")
 
 
-REPLAYED = ("gen1", "gen2", "gen3", "genI", "genR", "genK", "genS")
+REPLAYED = ("gen1", "gen2", "gen3", "genI", "genR", "genK", "genS", "genB", "genBA", "genB5")
+BUDGET_GENS = ("genB", "genBA", "genB5")
+
+
+def no_prog(bodies, i):
+    """labelling only (NoProg in StreamCli.tla): body i was cut without a new id having come across"""
+    return bodies[i]["knd"] != "none" and bodies[i]["c"] == (bodies[i - 1]["c"] if i else -1)
+
+
+def crossing(e):
+    """labelling / coverage only: (k, j) of the LAST reconnection in which an attempt failed: j failed attempts, made after k
+    bodies in a row that brought no new id across; None if no attempt failed"""
+    bodies = e["bodies"]
+    for i in range(len(e["recon"]) - 1, -1, -1):
+        j = sum(1 for o in e["recon"][i]["outs"] if o != "ok")
+        if j and i < len(bodies):
+            k, b = 0, i
+            while b >= 0 and no_prog(bodies, b):
+                k, b = k + 1, b - 1
+            return k, j
+    return None
 
 
 def run_length(p):
@@ -159,7 +198,7 @@ def abstract_class(p):
     """what makes two exported behaviours 'the same kind of case' for sampling"""
     c = p["cfg"]
     return (c["kind"], c["ids"], c["prime"], c["scheme"], c["mr"],
-            tuple((b["cls"], b["knd"], b["al"] >= 0, b["n"] == 0) for b in p["exp"]["bodies"]),
+            tuple((b["cls"], b["knd"], b["al"] >= 0, b["n"] == 0, b["rt"]) for b in p["exp"]["bodies"]),
             tuple(tuple(r["outs"]) for r in p["exp"]["recon"]), p["exp"]["outcome"], tuple(sorted(p["viol"])))
 
 
@@ -251,7 +290,9 @@ def context_of(inv, e):
         if recon and len(recon) == len(bodies) and recon[-1]["outs"] and recon[-1]["outs"][-1] != "ok":
             last = recon[-1]["outs"][-1]
             if (last in TRANSIENT or last == "terr") and inv in ("RealResponseWithinBudget", "CleanFailure"):
-                return "reconnect=" + last
+                # ... and when the bodies before that reconnection had brought nothing new across (the other budget had
+                # been drawn on, not exhausted), that is part of the case
+                return "reconnect=" + last + ("-after-no-progress" if fruitless_tail(e) >= 1 else "")
         j = len(bodies) - 1
         if inv in ("CleanFailure", "BoundedRetries") and fruitless_tail(e) > e["mr"] + 1:
             # the client was still asking for the stream after more than MaxRetries + 1 bodies in a row had
@@ -283,7 +324,7 @@ def sig_of(inv, e):
 
 
 MON_FIELDS = ("level", "kind", "ids", "M", "mr", "rd", "notes", "outcome", "respok", "ret", "div", "exit", "hasexp")
-BODY_FIELDS = ("from", "primed", "n", "cls", "knd", "al", "c", "d")
+BODY_FIELDS = ("from", "primed", "n", "cls", "knd", "al", "rt", "c", "d")
 
 
 def slim(r):
@@ -317,7 +358,8 @@ def describe(inv, e):
     return ("real client violates %s: %s stream ids=%s prime=%s scheme=%s M=%d MaxRetries=%d%s; bodies %s%s; reconnects %s; Read returned %s, "
             "handler saw %s, outcome %s%s" % (
                 inv, c["kind"], c["ids"], c["prime"], c["scheme"], c["M"], c["mr"], " stuck server" if c.get("tail") == "stuck" else "",
-                [(b["from"], b["n"], b["cls"], b["knd"], "off=%d/%d" % (b["off"], b["len"]), "c=%d" % b["c"]) for b in e["bodies"][:8]], tail,
+                [(b["from"], b["n"], b["cls"], b["knd"], "off=%d/%d" % (b["off"], b["len"]), "c=%d" % b["c"]) + (("retry:" + b["rt"],) if b["rt"] != "none" else ())
+                 for b in e["bodies"][:8]], tail,
                 [(r["sent"], r["raw"], r["outs"]) for r in e["recon"][:8]], e["rd"], e["notes"], e["outcome"],
                 (" (" + e["err"][:90] + ")") if e["err"] else ""))
 
@@ -383,7 +425,12 @@ def _run(tier, seed, replay, ctl):
         "has given up; a stuck server (every resumption answered 200 with a body that ends at offset 0, for ever) is part of the "
         "environment, and a call still pending after one virtual hour of that is a hang",
         "SSE events are written as the SDK's writeEvent writes them (event, id, data, blank line); one data line per event",
-        "TLC exhaustive results are for streams of 2-3 messages, MaxRetries 0-2, up to 2 cuts (3 in the reduced configuration)",
+        "the two budgets of MaxRetries (attempts per reconnection; resumptions in a row without a new id) are separate: a run that "
+        "stays below both - in every reconnection, whatever the stream's history of fruitless resumptions - must complete; what a "
+        "fruitless body carries besides ids (a `retry:` field, an event name, again the id resumed from) is not progress and does "
+        "not extend the no-progress budget; the delay a `retry:` field asks for is 0.2-2 s",
+        "TLC exhaustive results are for streams of 2-3 messages, MaxRetries 0-2, up to 2 cuts (3 in the reduced configuration); "
+        "the budget grid for MaxRetries 2, 3 and 5",
     ]
     out = vlib.outdir(PID)
     rng = random.Random(seed)
@@ -407,6 +454,10 @@ def _run(tier, seed, replay, ctl):
                    ("mc_runs", 1 if quick else 2,
                     cfg_text(fix="TRUE", tail=PROP_INVS, ms="{2}", mrs="{1, 2, 3}", cuts=2, tails=both, shapes="IdShapes", schemes='{"dec"}',
                              classes='{"bnd"}' if quick else '{"bnd", "data"}', answers='{"terr", "ok"}' if quick else '{"terr", "ok", "500"}'))]
+        # the two budgets crossed, against the repaired design: below both budgets the call always completes, above the
+        # no-progress budget the client has given up - whatever the fruitless bodies carry
+        bc = "Budgets1" if quick else "Budgets2"
+        design += [("mc_budget", 1, budget_cfg(bc, mrs="{3}" if quick else "{2, 3}", fix="TRUE", tail="CONSTRAINT %s\n%s" % (bc, PROP_SAFETY)))]
         base = cfg_text(tail="", ms="{2}", cuts=2, schemes='{"dec"}', classes='{"bnd", "data"}', tails=both)
         design += [("wit:" + w, 1, base.replace("CHECK_DEADLOCK", "INVARIANT %s\nCHECK_DEADLOCK" % w)) for w in WITNESSES]
 
@@ -441,8 +492,17 @@ def _run(tier, seed, replay, ctl):
         # the status class: single cuts on event boundaries, every sequence of answers over every status
         ("genS", 1, cfg_text(cuts=1, shapes="TwoShapes", schemes='{"dec"}', ms="{2}", mrs="{1, 2}" if quick else "{1, 2, 3}",
                              classes='{"bnd"}', answers=FULL_ANSWERS)),
+        # the two budgets crossed: the grid for MaxRetries 2 and 3 (failed attempts in one reconnection; thorough: in two, and
+        # streams without a priming event too) ...
+        ("genB", 1, budget_cfg("Budgets1", mrs="{2, 3}") if quick else budget_cfg("Budgets2", mrs="{2, 3}", shapes="TwoShapes")),
+        # ... and every sequence of attempt outcomes for MaxRetries 1 and 2
+        ("genBA", 1, budget_cfg("BudgetsAll", mrs="{1, 2}", kinds='{"post"}' if quick else '{"post", "sa"}')),
     ]
-    GEN = ("gen1", "gen2", "gen3", "gen1L", "genI", "genR", "genK", "genS")
+    GEN = ("gen1", "gen2", "gen3", "gen1L", "genI", "genR", "genK", "genS", "genB", "genBA")
+    if not quick:
+        # ... and the grid at the documented default, MaxRetries left unset (= 5)
+        jobs.append(("genB5", 1, budget_cfg("Budgets1", mrs="{5}", cuts=7)))
+        GEN += ("genB5",)
     try:
         results = run_jobs(jobs, 3)
     except Exception:
@@ -463,9 +523,14 @@ def _run(tier, seed, replay, ctl):
             ps = [p for p in ps if ncuts(p) > 2]
         ps.sort(key=lambda p: json.dumps(p, sort_keys=True))
         exported[name] = ps
+    exported.setdefault("genB5", [])
+    nowit = set(BUDGET_WITNESSES) - {w for p in exported["genB"] for w in p.get("wit", [])}
+    if nowit:
+        raise vlib.MachineryError("vacuity: no behaviour of the budget family is a witness of %s" % sorted(nowit))
     t_tlc = time.time() - v.t0
     if len(exported["gen1"]) < 5000 or len(exported["gen2"]) < 5000 or len(exported["gen3"]) < 1000 or \
-            len(exported["genR"]) < 200 or len(exported["genK"]) < 100 or len(exported["genS"]) < 300:
+            len(exported["genR"]) < 200 or len(exported["genK"]) < 100 or len(exported["genS"]) < 300 or \
+            len(exported["genB"]) < 2000 or len(exported["genBA"]) < 5000 or (not quick and len(exported["genB5"]) < 5000):
         raise vlib.MachineryError("TLC exported too few behaviours: %s" % {k: len(x) for k, x in exported.items()})
     v.cov["behaviours_exported"] = {k: len(x) for k, x in exported.items()}
     v.cov["leads_predicted_by_model"] = {k: sum(1 for p in x if p["viol"]) for k, x in exported.items()}
@@ -496,10 +561,10 @@ def _run(tier, seed, replay, ctl):
     else:
         want = {"gen1": 3500 if quick else 10 ** 9, "gen2": 2000 if quick else 10 ** 9, "gen3": 2000 if quick else 40000,
                 "genI": 1500 if quick else 10 ** 9, "genR": 1500 if quick else 10 ** 9, "genK": 500 if quick else 10 ** 9,
-                "genS": 10 ** 9}
+                "genS": 10 ** 9, "genB": 10 ** 9, "genBA": 500 if quick else 10 ** 9, "genB5": 10 ** 9}
         for name in REPLAYED:
             pool = exported[name]
-            if name not in ("gen1", "genS"):
+            if name not in ("gen1", "genS") + BUDGET_GENS:
                 pool = [p for p in pool if ncuts(p) >= 2]
             chosen = []
             if name == "genR":
@@ -528,6 +593,8 @@ def _run(tier, seed, replay, ctl):
                     continue
                 meta[cid] = p
                 cases.append({"id": cid, "level": "abs", "cfg": p["cfg"], "cuts": cuts, "rc": rc})
+                if name == "genB5":
+                    cases[-1]["dflt"] = True   # StreamableClientTransport.MaxRetries left unset: "It defaults to 5."
         for rid, c in refs:
             cases.append({"id": rid, "level": "byte", "cfg": c, "cuts": [], "rc": []})
             cases.append({"id": rid + "s", "level": "scan", "cfg": c, "cuts": [], "rc": []})
@@ -624,12 +691,36 @@ def _run(tier, seed, replay, ctl):
     v.cov["stuck_server_scenarios"] = sum(1 for r in rows if r["level"] != "scan" and r["cfg"].get("tail") == "stuck")
     v.cov["transient_statuses_answering_a_reconnect"] = {k: sorted(x) for k, x in sorted(after.items())}
     v.cov["reconnect_answers_seen"] = sorted({o for r in rows if r["level"] != "scan" for x in r["recon"] for o in x["outs"]})
+    # the budget grid: which (fruitless bodies in a row before a reconnection, failed attempts in it) cells were run, per budget
+    grid, retry_runs = {}, {}
+    for r in rows:
+        if r["level"] != "abs" or r["id"].split(".")[0] not in BUDGET_GENS:
+            continue
+        kj = crossing(r["exp"]) if r.get("hasexp") else None   # the cell the script was generated for (the model's behaviour)
+        if kj:
+            grid.setdefault(r["mr"], set()).add(kj)
+        run = [b for b in r["bodies"][1:] if b["knd"] != "none" and b["cls"] == "bnd" and b["n"] == 0 and b["rt"] != "none"]
+        if run:
+            retry_runs.setdefault("%s/mr=%d" % (run[0]["rt"], r["mr"]), set()).add(len(run) + r.get("more", 0))
+    v.cov["budget_grid_cells_run"] = {"mr=%d" % m: "%d cells, k=0..%d x j=1..%d" % (len(c), max(k for k, _ in c), max(j for _, j in c))
+                                      for m, c in sorted(grid.items())}
+    v.cov["retry_only_run_lengths"] = {k: ("1..%d" % max(x)) if sorted(x) == list(range(1, max(x) + 1)) else sorted(x)
+                                       for k, x in sorted(retry_runs.items())}
+    if not replay:
+        for m in ((2, 3) if quick else (2, 3, 5)):
+            # every cell below both budgets, the cells at both budgets and one beyond the no-progress budget must have been run
+            need = {(k, j) for k in range(0, m + 1) for j in range(1, m + 1)}
+            if need - grid.get(m, set()):
+                raise vlib.MachineryError("budget grid: cells %s were not run for MaxRetries=%d" % (sorted(need - grid.get(m, set()))[:8], m))
     v.cov["byte_offsets_enumerated"] = {rid: sum(1 for r in rows if r["level"] == "byte" and r["id"].startswith(rid + "/")) for rid, _ in refs} if not replay else {}
     v.cov["without_model_expectation"] = noexp
     v.cov["rule"] = ("abs = TLC-exported terminal behaviours of the as-is StreamCli.tla (every single-cut behaviour over kind x id shape x id "
                      "spelling x M in {2,3} x MaxRetries in {0,1,2}; two- and three-cut behaviours of reduced configurations; runs of 1..MaxRetries+1 "
                      "resumed bodies ending at offset 0, MaxRetries in {1,2,3}, against a server that recovers and against a stuck one; every "
-                     "answer sequence over the status class {429,500,502,503,504} + transport error + {404,403,501}; quick tier: one per "
+                     "answer sequence over the status class {429,500,502,503,504} + transport error + {404,403,501}; the two budgets crossed: "
+                     "per attempt refused / 503 / 200 empty / 200 with a retry-only event (bare, named, with the resumed id) / 200 with the rest, "
+                     "every sequence for MaxRetries 1-2, the grid (0..MaxRetries+1 fruitless bodies x 1..MaxRetries failed attempts, every "
+                     "position) for MaxRetries 2, 3 and - thorough - the default 5 with the option unset; quick tier: one per "
                      "abstract class plus a seeded sample), byte = every byte offset of the first body of each reference stream x {read error, "
                      "clean EOF} on a real session, scan = the same offsets through scanEvents alone; distinct = (configuration, bodies served "
                      "with their cuts, reconnects with their answers); non-trivial = at least one body was cut")
@@ -642,6 +733,8 @@ def _run(tier, seed, replay, ctl):
                                  "empty_resumption_runs_reduced_cfg": (not replay) and ran["genR"] == sum(1 for p in exported["genR"] if ncuts(p) >= 2),
                                  "stuck_server_runs_reduced_cfg": (not replay) and ran["genK"] == sum(1 for p in exported["genK"] if ncuts(p) >= 2),
                                  "answer_sequences_over_status_class": (not replay) and ran["genS"] == len(exported["genS"]),
+                                 "budget_grid": (not replay) and ran["genB"] == len(exported["genB"]) and ran["genB5"] == len(exported["genB5"]),
+                                 "budget_all_attempt_sequences_mr_1_2": (not replay) and ran["genBA"] == len(exported["genBA"]),
                                  "byte_offsets_of_reference_bodies": not replay}
     v.cov["exhaustive"] = all(v.cov["exhaustive_parts"].values())
     shown = 0
@@ -707,8 +800,10 @@ def _run(tier, seed, replay, ctl):
             case = {"id": r["id"].split("/")[0], "level": "scan", "cfg": r["cfg"], "cuts": [], "rc": []}
         else:
             case = {"id": r["id"], "level": "abs", "cfg": r["cfg"], "lay": r["id"].split("/")[0] if r["level"] == "byte" else r["id"],
-                    "cuts": [{"n": b["n"], "cls": b["cls"], "knd": b["knd"], "al": b["al"], "off": b["off"]} for b in r["bodies"]],
+                    "cuts": [{"n": b["n"], "cls": b["cls"], "knd": b["knd"], "al": b["al"], "off": b["off"], "rt": b["rt"]} for b in r["bodies"]],
                     "rc": [x["outs"] for x in r["recon"]]}
+            if r["id"].startswith("genB5."):
+                case["dflt"] = True
         v.violation(sig, "%s [all failed: %s] (%d scenarios with this signature)" % (describe(inv, r), ",".join(real), n),
                     {"case": case, "seed": r["seed"], "observation": r, "exp": ({"exp": r["exp"], "viol": r["pred"]} if r.get("hasexp") else None)})
     if not replay:   # the end-to-end part (spec/StreamE2E.tla): real client against the real server with an event store
